@@ -37,3 +37,24 @@ package app
 //@   ensures added: old(amount.val) != 0 && old(a.model) != nil ==> a.model.TotalSlashed != nil && a.model.TotalSlashed.val == old(a.model.TotalSlashed.val) + old(amount.val)
 //@   ensures reported: ledgerDelta(a.bus.checker, 0) == old(ledgerDelta(a.bus.checker, 0)) + old(amount.val)
 //@   ensures othercoins: forall k types.CoinID :: k != 0 ==> ledgerDelta(a.bus.checker, k) == old(ledgerDelta(a.bus.checker, k))
+
+//@ # ---------------------------------------------------------------- coin id counter (C22)
+//@ # the next id is the number of coins created so far plus one; the counter is only ever set explicitly
+//@ func (*App).GetNextCoinID
+//@   serves C22
+//@   requires a != nil
+//@   ensures next: a.model != nil && result == mod(a.model.CoinsCount + 1, 4294967296)
+//@   ensures samerecord: old(a.model) != nil ==> a.model == old(a.model)
+//@   modifies a.model
+//@ func (*App).SetCoinsCount
+//@   serves C22
+//@   requires a != nil
+//@   ensures set: a.model != nil && a.model.CoinsCount == count
+//@   ensures samerecord: old(a.model) != nil ==> a.model == old(a.model)
+//@   modifies a.model, Model.CoinsCount, appDirtyMarks
+//@ func (*App).GetCoinsCount
+//@   serves C22
+//@   requires a != nil
+//@   ensures get: a.model != nil && result == a.model.CoinsCount
+//@   ensures samerecord: old(a.model) != nil ==> a.model == old(a.model)
+//@   modifies a.model
